@@ -306,3 +306,6 @@ func verifHasPrefix(s, prefix string) bool { return strings.HasPrefix(s, prefix)
 // verifDeterministic: value must not depend on map iteration order or slice capacity
 // (relational obligation over schedules, DESIGN C07); natively it is an observation.
 func verifDeterministic(label string, value string) { verifObserve("det:"+label, value) }
+
+// verifFormatCalls: how many times go/format.Source has been applied so far (symbolic engine only; -1 natively).
+func verifFormatCalls() int { return -1 }
